@@ -1,7 +1,8 @@
 (* C17 — Embedded optimisation and clustering algorithms keep their contracts.
    Only the property theorems, each closed by `exact` (or by evaluation for witnesses). *)
-From Coq Require Import Permutation QArith Sorted.
+From Coq Require Import Permutation QArith Sorted Floats.
 From VRP Require Import Base.Tac Model.Dbscan Model.Lkh Model.KMedoids Proofs.DbscanP Proofs.LkhP Proofs.LkhCostP Proofs.KMedoidsP.
+From VRP Require Import Model.LkhG Proofs.LkhGP Proofs.LkhGCostP Model.LkhRoute Proofs.LkhRouteP.
 From VRP Require Import Model.ClusterWrappers Proofs.ClusterWrappersP.
 Local Open Scope Z_scope.
 Local Open Scope nat_scope.
@@ -148,6 +149,142 @@ Theorem C17_lkh_nonvacuous :
   optimize line8 near8 id_ho 100 [0;5;1;6;2;7;4;3] = Found [0;1;2;3;4;7;6;5]
   /\ check_lkh line8 [0;5;1;6;2;7;4;3] [0;1;2;3;4;7;6;5] = [].
 Proof. vm_compute. split; reflexivity. Qed.
+
+(* ---------------------------------------------------------------- LKH over NON-EXACT cost arithmetic (f64)
+   Model/LkhG.v is the same search over an arbitrary cost type with its own +, -, comparisons; Model/Lkh.v is its instance at
+   exact integers (by conversion), so the theorems above are theorems about that instance: *)
+Theorem C17_lkh_generic_model_at_Z_is_exact_model : forall cm nb ho ofuel p,
+  goptimize Z ZOps (cost cm) nb ho rej_known ofuel p = optimize cm nb ho ofuel p.
+Proof. exact z_instance_optimize. Qed.
+
+(* the permutation and start clauses and the termination of ONE improve call do not depend on the arithmetic: they hold for
+   every cost type (so also for the f64 code whenever it returns), every `is_known_path` policy, every hash order *)
+Theorem C17_lkh_permutation_any_arithmetic : forall C (K : cops C) cost nb ho reject,
+  (forall l l', ho l = Some l' -> forall e, In e l' -> In e l) ->
+  forall ofuel p q, goptimize C K cost nb ho reject ofuel p = Found q ->
+  Permutation q p /\ hd_error q = hd_error p.
+Proof. exact goptimize_ok. Qed.
+
+Theorem C17_lkh_improve_terminates_any_arithmetic : forall C (K : cops C) cost nb ho reject,
+  (forall l l', ho l = Some l' -> forall e, In e l' -> In e l) ->
+  forall p, gimprove C K cost nb ho reject p <> Fuel.
+Proof. exact gimprove_nofuel. Qed.
+
+(* clause "always terminates" is VIOLATED by the code over f64 (finding C17-F4).  Instance FOps = Coq primitive floats = IEEE-754
+   binary64.  Seven distinct integer points, Euclidean costs sqrt(dx^2+dy^2), complete neighbour lists sorted by distance, a
+   start path through all points: the first improvement reaches tour a; a and b are different tours with the same multiset of
+   squared edge lengths (exactly equal length); the gain `relink` of the 3-opt move a -> b, a sum of six rounded terms whose
+   exact value is 0, is computed > 0, and so is the gain of the move back; is_known_path only knows the current tour.  Hence
+   KOpt::optimize alternates a, b, a, b, ... : it is out of fuel for EVERY fuel.  (gstrict_ho aborts on any candidate tie:
+   the result Fuel, not Abort, says that no hash-order dependent choice occurs on the way.) *)
+Theorem C17_lkh_float_termination_refuted :
+  exists (pts : list (Z * Z)) (nb : list (list nat)) (p a b : list nat),
+    NoDup pts /\ Permutation p (seq 0 (length pts)) /\ fsymb (euclid pts) = true
+    /\ a <> b /\ Permutation (sq_lengths pts a) (sq_lengths pts b)
+    /\ gimprove float FOps (fcost (euclid pts)) nb (gstrict_ho float FOps) rej_known p = Found a
+    /\ gimprove float FOps (fcost (euclid pts)) nb (gstrict_ho float FOps) rej_known a = Found b
+    /\ gimprove float FOps (fcost (euclid pts)) nb (gstrict_ho float FOps) rej_known b = Found a
+    /\ forall ofuel, goptimize float FOps (fcost (euclid pts)) nb (gstrict_ho float FOps) rej_known ofuel p = Fuel.
+Proof. exact lkh_float_refuted. Qed.
+
+(* PROPOSED REPAIR (notes/patches/C17-lkh-termination.diff: `self.solutions.clear()` removed, KOpt::solutions keeps every
+   discovered tour, is_known_path rejects a tour that was already visited; model goptimize_hist / rej_seen).
+   Termination for EVERY cost arithmetic - nothing at all is assumed of +, -, <=, <, total_cmp (they may round, overflow, be
+   inconsistent): the measure is what the code compares, the set of remembered tours: an accepted tour is a word over the input's
+   nodes that is not yet remembered, and there are finitely many. *)
+Theorem C17_lkh_repaired_terminates : forall C (K : cops C) cost nb ho,
+  (forall l l', ho l = Some l' -> forall e, In e l' -> In e l) ->
+  forall p, exists ofuel, goptimize_hist C K cost nb ho ofuel p [] <> HFuel.
+Proof. exact memory_terminates. Qed.
+
+(* every path of the returned vector is a permutation of the input starting at the same node; the input is the first entry;
+   no path occurs twice - again for every cost arithmetic *)
+Theorem C17_lkh_repaired_contract : forall C (K : cops C) cost nb ho,
+  (forall l l', ho l = Some l' -> forall e, In e l' -> In e l) ->
+  forall p ofuel ps, goptimize_hist C K cost nb ho ofuel p [] = HFound ps ->
+  NoDup ps /\ (forall q, In q ps -> Permutation q p /\ hd_error q = hd_error p) /\ hd_error ps = Some p.
+Proof. exact memory_contract. Qed.
+
+(* cost clause of the repaired loop over exact costs (symmetric matrix, duplicate-free input): the returned tours get strictly
+   cheaper from one to the next, so none (in particular the last one, which the callers take) is above the input's *)
+Theorem C17_lkh_repaired_cost : forall cm nb ho,
+  (forall i j, cost cm i j = cost cm j i) ->
+  (forall l l', ho l = Some l' -> forall e, In e l' -> In e l) ->
+  forall ofuel p ps, NoDup p -> goptimize_hist Z ZOps (cost cm) nb ho ofuel p [] = HFound ps ->
+  descending cm ps /\ forall q, In q ps -> (cycle_cost cm q <= cycle_cost cm p)%Z.
+Proof. exact memory_cost. Qed.
+
+(* non-vacuity: on the instance of C17_lkh_float_termination_refuted the repaired loop ends after three accepted tours; the move
+   b -> a is rejected (a is remembered) and the search goes on to a tour that is really shorter *)
+Theorem C17_lkh_repaired_nonvacuous :
+  goptimize_hist float FOps (fcost (euclid [(2, 0); (0, 0); (0, 2); (3, 3); (1, 0); (2, 3); (3, 2)]%Z))
+    [[4; 1; 6; 2; 5; 3]; [4; 0; 2; 5; 6; 3]; [1; 4; 5; 0; 6; 3]; [5; 6; 0; 2; 4; 1]; [0; 1; 2; 6; 5; 3]; [3; 6; 2; 0; 4; 1];
+     [3; 5; 0; 4; 2; 1]] (gstrict_ho float FOps) 400 [0; 3; 5; 2; 4; 1; 6] []
+  = HFound [[0; 3; 5; 2; 4; 1; 6]; [0; 1; 4; 2; 5; 6; 3]; [0; 1; 4; 2; 3; 5; 6]; [0; 1; 4; 2; 5; 3; 6]].
+Proof. exact wit_repaired. Qed.
+
+(* an ALTERNATIVE repair that was not chosen (it changes which of two equally long tours a repository test expects): accept a
+   rebuilt tour only if its recomputed closed-tour cost is strictly below the current tour's.  It ends for every cost arithmetic
+   whose `<` is a strict order (nothing is assumed of + and -), and the recomputed cost never goes up *)
+Theorem C17_lkh_cheaper_acceptance_terminates : forall C (K : cops C) cost nb ho,
+  (forall l l', ho l = Some l' -> forall e, In e l' -> In e l) ->
+  (forall x, c_lt K x x = false) ->
+  (forall x y z, c_lt K x y = true -> c_lt K y z = true -> c_lt K x z = true) ->
+  forall p, exists ofuel, goptimize C K cost nb ho (rej_cheaper K cost) ofuel p <> Fuel.
+Proof. exact repaired_terminates. Qed.
+
+Theorem C17_lkh_cheaper_acceptance_nonvacuous :
+  (forall x, c_lt ZOps x x = false)
+  /\ (forall x y z, c_lt ZOps x y = true -> c_lt ZOps y z = true -> c_lt ZOps x z = true)
+  /\ (forall l l', gstrict_ho Z ZOps l = Some l' -> forall e, In e l' -> In e l).
+Proof. exact (conj zops_lt_irrefl (conj zops_lt_trans (gstrict_ho_sound Z ZOps))). Qed.
+
+(* the cycle detector of the float correspondence is sound: when the model that remembers every tour (goptimize_seen, result code 4 of
+   run_lkhf / run_lkh_route) sees a tour come back, KOpt::optimize is out of fuel for EVERY fuel *)
+Theorem C17_lkh_cycle_detector_sound : forall C (K : cops C) cost nb ho reject ofuel p q k,
+  goptimize_seen C K cost nb ho reject ofuel [] p = (4, q, k) ->
+  forall f, goptimize C K cost nb ho reject f p = Fuel.
+Proof. exact seen_cycle_diverges. Qed.
+
+(* ---------------------------------------------------------------- the solver's LKH operator (solver/search/lkh_search.rs):
+   tour -> path -> lkh_optimize -> tour.  rearrange_route (the in-place swap loop) applies the permutation it is given: for a path
+   that is a permutation of the range 0..n, activity path[j] of the old tour ends at position j, activities behind the range are
+   not touched, the length stays *)
+Theorem C17_lkh_rearrange_route : forall (A : Type) (d : A) n acts path,
+  Permutation path (seq 0 n) -> n <= length acts ->
+  length (rearrange d n acts path) = length acts
+  /\ (forall j, j < n -> nth j (rearrange d n acts path) d = nth (nth j path 0) acts d)
+  /\ (forall j, n <= j -> nth j (rearrange d n acts path) d = nth j acts d).
+Proof. exact @rearrange_spec. Qed.
+
+Theorem C17_lkh_rearrange_route_keeps_activities : forall (A : Type) (d : A) acts path,
+  Permutation path (seq 0 (length acts)) -> Permutation (rearrange d (length acts) acts path) acts.
+Proof. exact @rearrange_whole_tour_perm. Qed.
+
+(* optimize_route as a whole, for every cost arithmetic and every is_known_path policy: a tour that comes back holds exactly the
+   activities of the old tour, the activities outside the LKH range (the end at the depot) stay in place and the start stays first
+   - this is where the LKH clauses "permutation of the given nodes" and "starts at the same node" are needed by the solver *)
+Theorem C17_lkh_route_rebuilt_tour : forall C (K : cops C) cost nb ho reject,
+  (forall l l', ho l = Some l' -> forall e, In e l' -> In e l) ->
+  forall locs_all ofuel q,
+  goptimize C K cost nb ho reject ofuel (seq 0 (route_range locs_all)) = Found q ->
+  Permutation (route_apply locs_all q) (seq 0 (length locs_all))
+  /\ (forall j, route_range locs_all <= j -> j < length locs_all -> nth j (route_apply locs_all q) 0 = j)
+  /\ (0 < route_range locs_all -> nth 0 (route_apply locs_all q) 0 = 0).
+Proof. exact route_rebuilt. Qed.
+
+(* finding C17-F4 through the solver: for a closed route over five distinct grid points, and for a route with two jobs at one
+   address (coordinates up to 1000), the CostMatrix that lkh_search.rs builds makes the search of the code as it is cycle
+   (code 4, sound by C17_lkh_cycle_detector_sound); with the proposed repair the first route is re-sequenced and returned *)
+Theorem C17_lkh_route_float_cycle_witness :
+  run_lkh_route false (euclid [(2, 0); (3, 2); (3, 3); (0, 2); (2, 3)]%Z) [0; 3; 1; 2; 4; 0] = (4, [])
+  /\ run_lkh_route false (euclid [(325, 385); (816, 111); (791, 190); (475, 483); (992, 935); (162, 268)]%Z) [0; 3; 5; 2; 2; 1; 4; 0] = (4, [])
+  /\ run_lkh_route true (euclid [(2, 0); (3, 2); (3, 3); (0, 2); (2, 3)]%Z) [0; 3; 1; 2; 4; 0] = (0, [0; 1; 4; 3; 2; 5]).
+Proof. exact route_cycle_witness. Qed.
+
+Theorem C17_lkh_rearrange_route_nonvacuous :
+  rearrange 0 5 [10; 11; 12; 13; 14; 15] [0; 3; 1; 4; 2] = [10; 13; 11; 14; 12; 15].
+Proof. exact rearrange_example. Qed.
 
 (* ================================================================ k-medoids (kmedoids.rs)
    d = distance function, chunks = how rayon splits the data in fold_reduce, ord = hash order of updated medoids *)
